@@ -147,6 +147,20 @@ func (w *World) unfoldSpecs(ts []*Term, depth int, reveal map[string]bool) []*Te
 }
 
 // buildScript renders the SMT-LIB text of one obligation (without the shared prelude).
+// qfOnly: when set, assumptions containing quantifiers are left out (sound: fewer assumptions); trivial
+// goals are then decided without the solver wading through the quantified context.
+var qfOnly bool
+
+func hasQuant(t *Term) bool {
+	found := false
+	t.walk(func(x *Term) {
+		if x.Op == "forall" || x.Op == "exists" {
+			found = true
+		}
+	})
+	return found
+}
+
 func (o *Obligation) buildBody(w *World, depth int, dropHyp int, extra ...*Term) string {
 	enc := o.enc
 	var sb strings.Builder
@@ -210,9 +224,15 @@ func (o *Obligation) buildBody(w *World, depth int, dropHyp int, extra ...*Term)
 		fmt.Fprintf(&sb, "(assert %s)\n", ca.term)
 	}
 	for _, a := range asserts {
+		if qfOnly && hasQuant(a) {
+			continue
+		}
 		fmt.Fprintf(&sb, "(assert %s)\n", a)
 	}
 	for _, u := range unf {
+		if qfOnly && hasQuant(u) {
+			continue
+		}
 		fmt.Fprintf(&sb, "(assert %s)\n", u)
 	}
 	for _, h := range hyps {
